@@ -30,15 +30,17 @@ type Prog struct {
 	Entry   string
 	Params  []Param
 	Results []string
-	Mode    int                                             // goat side pipeline (0 public API)
-	Assume  func(ex *gosx.Exec, in map[string]*gosx.Term)   // optional input assumptions (stated in evidence)
-	Family  string                                          // known-findings key prefix (class of program)
+	Mode    int                                           // goat side pipeline (0 public API)
+	Assume  func(ex *gosx.Exec, in map[string]*gosx.Term) // optional input assumptions (stated in evidence)
+	Family  string                                        // known-findings key prefix (class of program)
 	Tags    map[string]string
-	StrLen  map[string]int // length of symbolic-content string parameters
+	StrLen  map[string]int    // length of symbolic-content string parameters
 	Files   map[string]string // when set: the program is the package main in this tree (dir main/), loaded with Load
-	Shared  bool           // may share one reference package with other programs (only funcs with unique names)
+	Shared  bool              // may share one reference package with other programs (only funcs with unique names)
 	Imports []string
 	ref     *ssa.Package
+
+	replayTimeout int // seconds for the native goat run of a replay (0: default)
 }
 
 type typeInfo struct {
@@ -397,10 +399,21 @@ func (c *Ctx) exploreProg(p *Prog, st *eqStats, solver string) *gosx.Report {
 		}
 		var res gosx.Value
 		var pan *gosx.TargetPanic
+		unwound := ""
 		if p.Files != nil {
-			res, pan = ex.Call(ex.Func("verifLoadCall"), gosx.MkStringMap(p.Files), "main", "main."+p.Entry, uint64(len(p.Results)), gosx.MkSlice(goatArgs...))
+			res, pan, unwound = ex.CallBounded(ex.Func("verifLoadCall"), gosx.MkStringMap(p.Files), "main", "main."+p.Entry, uint64(len(p.Results)), gosx.MkSlice(goatArgs...))
 		} else {
-			res, pan = ex.Call(ex.Func("verifEvalCall"), p.Src, "main."+p.Entry, uint64(len(p.Results)), gosx.MkSlice(goatArgs...), uint64(p.Mode))
+			res, pan, unwound = ex.CallBounded(ex.Func("verifEvalCall"), p.Src, "main."+p.Entry, uint64(len(p.Results)), gosx.MkSlice(goatArgs...), uint64(p.Mode))
+		}
+		if unwound != "" {
+			// goatlang ran past the step bound.  If Go's execution of the same text terminates (well) within the same
+			// bound, that is a difference in behaviour, not a reduced bound: report it (confirmed natively with a timeout).
+			ex.InitPackage(p.ref)
+			ex.RefSide = true
+			ex.Call(p.ref.Func(p.Entry), refArgs...) // a second overrun ends the path as "unwind"
+			ex.RefSide = false
+			ex.Assert(ex.TT().Bool(false), id+"/nontermination", "goatlang does not finish ("+unwound+") where Go's execution of the same program terminates", nil)
+			return
 		}
 		if pan != nil {
 			ex.Assert(ex.TT().Bool(false), id+"/host-panic", "a Go panic escaped Eval/Call: "+ex.PanicText(pan), nil)
@@ -508,7 +521,13 @@ func (c *Ctx) runEquiv(progs []*Prog, solver string, agg *Agg, st *eqStats) {
 			ok, detail, handled = c.replayOverride(f.p, f.f)
 		}
 		if !handled {
-			ok, detail = c.replayProg(f.p, f.f.Model)
+			rp := f.p
+			if strings.HasSuffix(f.f.ID, "/nontermination") {
+				cp := *f.p
+				cp.replayTimeout = 5
+				rp = &cp
+			}
+			ok, detail = c.replayProg(rp, f.f.Model)
 		}
 		c.mu.Lock()
 		c.replays++
@@ -592,11 +611,11 @@ func (c *Ctx) replayProg(p *Prog, m gosx.Model) (bool, map[string]interface{}) {
 	// goat side
 	var gr nativeProgResp
 	req := map[string]interface{}{"Op": "prog", "Prog": map[string]interface{}{"Src": p.Src, "Files": p.Files, "Pkg": "main", "Entry": "main." + p.Entry, "NRes": len(p.Results), "Args": args, "Mode": p.Mode}}
-	out, err := c.Native.RunOnce(req, &gr, 60)
+	out, err := c.Native.RunOnce(req, &gr, p.nativeTimeout())
 	gr.fix()
 	goat := ""
 	if err != nil {
-		goat = "HOST-CRASH: " + lastLines(out, 3)
+		goat = "HOST-CRASH-OR-TIMEOUT: " + truncate(lastLines(out, 3), 300)
 	} else if gr.HostPanic != "" {
 		goat = "HOST-PANIC: " + gr.HostPanic
 	} else if gr.EvalErr != "" {
@@ -621,6 +640,13 @@ func (c *Ctx) replayProg(p *Prog, m gosx.Model) (bool, map[string]interface{}) {
 		detail["goat_error"] = gr.CallErr
 	}
 	return goat != gout, detail
+}
+
+func (p *Prog) nativeTimeout() int {
+	if p.replayTimeout > 0 {
+		return p.replayTimeout
+	}
+	return 60
 }
 
 func lastLines(s string, n int) string {
